@@ -567,6 +567,9 @@ func runC12Conc(t *testing.T, c c12Case, st *drv.Stats) (fail *drv.Failure) {
 						f = w.observe(fmt.Sprintf("task %d op %d %+v", ti+1, oi, op), nil)
 					}
 					if f != nil {
+						// seen while exchanges run concurrently (the sequential engine
+						// judges the same invariants without this prefix)
+						f.Sig = "concurrent-exchanges:" + f.Sig
 						fmu.Lock()
 						if fail == nil {
 							fail = f
